@@ -88,6 +88,8 @@ def bounded(tier, seed):
                         discarding = True
                 elif op == "prune" and roots:
                     r = rnd.choice(roots)
+                    if r.parent is not None:
+                        continue     # a copied inner node keeps its origin's parent link without being listed there: not a tree root in prune's sense
                     gone = validate.prune(r, strict=rnd.choice([True, False]))
                     if any(g[0] is r for g in gone):
                         roots.remove(r)       # the root itself was discarded (unknown element name)
